@@ -13,10 +13,10 @@ set_option linter.unusedVariables false
 
 /-! ### `value` on a fragment value -/
 
-theorem c_value (fl : Bool) (d : Nat) (loc : List Bool) (cps : List Nat) (v : Val) (X : List TokenKind)
+theorem c_value (fl : Bool) (d : Nat) (loc : List Bool) (cps : CpStack) (cur : List SyntaxKind) (ps : List (SyntaxKind × List SyntaxKind)) (v : Val) (X : List TokenKind)
     (hf : valFollowOk (X.headD .Eof) = true) (n : Nat) (hn : 64 * v.render.length + 384 ≤ n) :
-    ax n (call .value) ⟨v.render ++ X, fl, d, loc, cps, true⟩ = some ⟨X, true, d, loc, cps, true⟩ :=
-  c_val v X hf n fl d loc cps trivial (by omega)
+    ax n (call .value) ⟨v.render ++ X, fl, d, loc, cps, true, cur, ps⟩ = some ⟨X, true, d, loc, cps, true, .Value :: cur, ps⟩ :=
+  c_val v X hf n fl d loc cps cur ps trivial (by omega)
 
 theorem val_head (v : Val) (Z : List TokenKind) : valFirst.contains ((v.render ++ Z).headD .Eof) = true :=
   val_starts v Z
@@ -38,94 +38,109 @@ theorem nsval_nsufs {k : TokenKind} (h : nsvalFollowOk k = true) : nsufsFollowOk
   obtain ⟨h2, h3, _, _⟩ := nsvalFollowOk_iff.mp h
   exact nsufsFollowOk_iff.mpr ⟨h2, h3⟩
 
-def NSufsOk (S : List TokenKind) : Prop :=
-  Consumes anyCtx (loop (ifAt [.LBrace] (retB false) (call .value_suffix)) nop) 240 false nsufsFollowOk S ∧
+def NSufsOk (Ks : List SyntaxKind) (S : List TokenKind) : Prop :=
+  Consumes anyCtx (loop (ifAt [.LBrace] (retB false) (call .value_suffix)) nop) 240 false nsufsFollowOk Ks S ∧
     ∀ Z, nsvalFollowOk (Z.headD .Eof) = true → litFollowOk ((S ++ Z).headD .Eof) = true
-def NSValOk (R : List TokenKind) : Prop := Consumes anyCtx (call .inner_name_value) 256 true nsvalFollowOk R
-def NPasteOk (T : List TokenKind) : Prop :=
-  Consumes anyCtx (loop (eatIf .Paste) (call .inner_name_value)) 272 false nvalFollowOk T ∧
+def NSValOk (R : List TokenKind) : Prop := Consumes anyCtx (call .inner_name_value) 256 true nsvalFollowOk [.InnerValue] R
+def NPasteOk (n : Nat) (T : List TokenKind) : Prop :=
+  Consumes anyCtx (loop (eatIf .Paste) (call .inner_name_value)) 272 false nvalFollowOk (List.replicate n .InnerValue) T ∧
     ∀ Z, nvalFollowOk (Z.headD .Eof) = true → nsvalFollowOk ((T ++ Z).headD .Eof) = true
-def NameOk (R : List TokenKind) : Prop := Consumes anyCtx (call .name_value) 288 true nvalFollowOk R
+def NameOk (R : List TokenKind) : Prop := Consumes anyCtx (call .name_value) 288 true nvalFollowOk [.Value] R
 
-theorem nsufs_nil : NSufsOk [] := by
+theorem nsufs_nil : NSufsOk [] [] := by
   refine ⟨?_, fun Z h => by simpa using nsval_lit h⟩
-  intro Z hf n fl d loc cps _ hn
+  intro Z hf n fl d loc cps cur ps _ hn
   obtain ⟨h2, h3⟩ := nsufsFollowOk_iff.mp hf
   obtain ⟨m, rfl⟩ : ∃ m, n = m + 20 := ⟨n - 20, by omega⟩
   rw [ax_loop]
   cases h1 : (Z.headD .Eof == TokenKind.LBrace) <;> ax_eval [ax_call]
 
-theorem nsufs_cons {S1 S : List TokenKind} (h1 : SufOk S1)
+theorem nsufs_cons {k : SyntaxKind} {Ks : List SyntaxKind} {S1 S : List TokenKind} (h1 : SufOk k S1)
     (hh : ∀ Z, [TokenKind.LSquare, .Dot].contains ((S1 ++ Z).headD .Eof) = true)
-    (hpos : 1 ≤ S1.length) (hS : NSufsOk S) : NSufsOk (S1 ++ S) := by
+    (hpos : 1 ≤ S1.length) (hS : NSufsOk Ks S) : NSufsOk (k :: Ks) (S1 ++ S) := by
   refine ⟨?_, fun Z _ => by rw [List.append_assoc]; exact prop_of_mem litFollowOk (hh _) (by decide)⟩
-  intro Z hf n fl d loc cps _ hn
+  intro Z hf n fl d loc cps cur ps _ hn
   simp only [List.length_append] at hn
   obtain ⟨m, rfl⟩ : ∃ m, n = m + 8 := ⟨n - 8, by omega⟩
   have hb : ∀ Z, [TokenKind.LBrace].contains ((S1 ++ Z).headD .Eof) = false :=
     fun Z => notin_of_mem (hh Z) (by decide)
-  have e1 := fun n fl d loc cps => h1 (S ++ Z) rfl n fl d loc cps trivial
-  have e2 := fun n fl d loc cps => hS.1 Z hf n fl d loc cps trivial
+  have e1 := fun n fl d loc cps cur ps => h1 (S ++ Z) rfl n fl d loc cps cur ps trivial
+  have e2 := fun n fl d loc cps cur ps => hS.1 Z hf n fl d loc cps cur ps trivial
   rw [ax_loop]
   ax_eval [e1, e2]
 
-theorem nsval_of {H S : List TokenKind} (hH : LitOk H) (hS : NSufsOk S) : NSValOk (H ++ S) := by
-  intro Z hf n fl d loc cps _ hn
+theorem nsval_of {k : SyntaxKind} {Ks : List SyntaxKind} {H S : List TokenKind} (hH : LitOk k H) (hS : NSufsOk Ks S)
+    (hk : simpleKinds.contains k = true) (hKs : ∀ x ∈ Ks, sufKinds.contains x = true) : NSValOk (H ++ S) := by
+  intro Z hf n fl d loc cps cur ps _ hn
+  have hg : goodNode .InnerValue (pushAll Ks [k]).reverse = true := by
+    rw [pushAll_eq]; simpa using good_innerValue k Ks hk hKs
   simp only [List.length_append] at hn
   obtain ⟨m, rfl⟩ : ∃ m, n = m + 12 := ⟨n - 12, by omega⟩
   have e1 := hH (S ++ Z) (hS.2 Z hf)
-  have e2 := fun n fl d loc cps => hS.1 Z (nsval_nsufs hf) n fl d loc cps trivial
+  have e2 := fun n fl d loc cps cur ps => hS.1 Z (nsval_nsufs hf) n fl d loc cps cur ps trivial
   ax_eval [ax_call (f := .inner_name_value), e1, e2]
 
-theorem npaste_nil : NPasteOk [] := by
+theorem npaste_nil : NPasteOk 0 [] := by
   refine ⟨?_, fun Z h => by simpa using (nvalFollowOk_iff.mp h).1⟩
-  intro Z hf n fl d loc cps _ hn
+  intro Z hf n fl d loc cps cur ps _ hn
   have hP := (nvalFollowOk_iff.mp hf).2
   obtain ⟨m, rfl⟩ : ∃ m, n = m + 20 := ⟨n - 20, by omega⟩
   rw [ax_loop]
   ax_eval []
 
-theorem npaste_cons {R T : List TokenKind} (hR : NSValOk R) (hT : NPasteOk T) :
-    NPasteOk (TokenKind.Paste :: (R ++ T)) := by
+theorem npaste_cons {n : Nat} {R T : List TokenKind} (hR : NSValOk R) (hT : NPasteOk n T) :
+    NPasteOk (n + 1) (TokenKind.Paste :: (R ++ T)) := by
   refine ⟨?_, fun Z _ => rfl⟩
-  intro Z hf n fl d loc cps _ hn
+  intro Z hf n fl d loc cps cur ps _ hn
   simp only [List.length_cons, List.length_append] at hn
   obtain ⟨m, rfl⟩ : ∃ m, n = m + 8 := ⟨n - 8, by omega⟩
-  have e1 := fun n fl d loc cps => hR (T ++ Z) (hT.2 Z hf) n fl d loc cps trivial
-  have e2 := fun n fl d loc cps => hT.1 Z hf n fl d loc cps trivial
+  have e1 := fun n fl d loc cps cur ps => hR (T ++ Z) (hT.2 Z hf) n fl d loc cps cur ps trivial
+  have e2 := fun n fl d loc cps cur ps => hT.1 Z hf n fl d loc cps cur ps trivial
   rw [ax_loop]
   ax_eval [e1, e2]
 
-theorem name_of {R T : List TokenKind} (hR : NSValOk R) (hT : NPasteOk T) : NameOk (R ++ T) := by
-  intro Z hf n fl d loc cps _ hn
+theorem name_of {k : Nat} {R T : List TokenKind} (hR : NSValOk R) (hT : NPasteOk k T) : NameOk (R ++ T) := by
+  intro Z hf n fl d loc cps cur ps _ hn
+  have hg : goodNode .Value (pushAll (List.replicate k .InnerValue) [.InnerValue]).reverse = true :=
+    good_all_push .Value ⟨"inner_values", .all, [.InnerValue]⟩ rfl rfl (.InnerValue :: List.replicate k .InnerValue)
+      (by intro x hx; rcases List.mem_cons.mp hx with rfl | hx
+          · rfl
+          · rw [List.eq_of_mem_replicate hx]; rfl)
   simp only [List.length_append] at hn
   obtain ⟨m, rfl⟩ : ∃ m, n = m + 12 := ⟨n - 12, by omega⟩
-  have e1 := fun n fl d loc cps => hR (T ++ Z) (hT.2 Z hf) n fl d loc cps trivial
-  have e2 := fun n fl d loc cps => hT.1 Z hf n fl d loc cps trivial
+  have e1 := fun n fl d loc cps cur ps => hR (T ++ Z) (hT.2 Z hf) n fl d loc cps cur ps trivial
+  have e2 := fun n fl d loc cps cur ps => hT.1 Z hf n fl d loc cps cur ps trivial
   ax_eval [ax_call (f := .name_value), e1, e2]
 
 theorem nsuffix_head (s : NSuffix) (Z : List TokenKind) :
     [TokenKind.LSquare, .Dot].contains ((s.toSuffix.render ++ Z).headD .Eof) = true := by
   cases s <;> rfl
 
-theorem nsufs_ok : (sufs : List NSuffix) → NSufsOk (nsufsRender sufs)
+def nsufKinds (sufs : List NSuffix) : List SyntaxKind := sufs.map fun s => s.toSuffix.nk
+
+theorem nsufKinds_ok (sufs : List NSuffix) : ∀ x ∈ nsufKinds sufs, sufKinds.contains x = true := by
+  intro x hx
+  obtain ⟨s, _, rfl⟩ := List.mem_map.mp hx
+  cases s <;> rfl
+
+theorem nsufs_ok : (sufs : List NSuffix) → NSufsOk (nsufKinds sufs) (nsufsRender sufs)
   | [] => nsufs_nil
   | s :: ss => nsufs_cons (c_suffix s.toSuffix) (nsuffix_head s) (suffix_pos _) (nsufs_ok ss)
 
-theorem npaste_ok : (tl : List (Lit × List NSuffix)) → NPasteOk (npasteRender tl)
+theorem npaste_ok : (tl : List (Lit × List NSuffix)) → NPasteOk tl.length (npasteRender tl)
   | [] => npaste_nil
   | (l, sufs) :: rest => by
-    have := npaste_cons (nsval_of (c_lit l) (nsufs_ok sufs)) (npaste_ok rest)
+    have := npaste_cons (nsval_of (c_lit l) (nsufs_ok sufs) (lit_nk_simple l) (nsufKinds_ok sufs)) (npaste_ok rest)
     rwa [List.append_assoc] at this
 
 theorem name_ok (v : NameVal) : NameOk v.render := by
-  have := name_of (nsval_of (c_lit v.l) (nsufs_ok v.sufs)) (npaste_ok v.tl)
+  have := name_of (nsval_of (c_lit v.l) (nsufs_ok v.sufs) (lit_nk_simple v.l) (nsufKinds_ok v.sufs)) (npaste_ok v.tl)
   rwa [List.append_assoc] at this
 
-theorem c_name_value (fl : Bool) (d : Nat) (loc : List Bool) (cps : List Nat) (v : NameVal) (X : List TokenKind)
+theorem c_name_value (fl : Bool) (d : Nat) (loc : List Bool) (cps : CpStack) (cur : List SyntaxKind) (ps : List (SyntaxKind × List SyntaxKind)) (v : NameVal) (X : List TokenKind)
     (hf : nvalFollowOk (X.headD .Eof) = true) (n : Nat) (hn : 64 * v.render.length + 384 ≤ n) :
-    ax n (call .name_value) ⟨v.render ++ X, fl, d, loc, cps, true⟩ = some ⟨X, true, d, loc, cps, true⟩ :=
-  name_ok v X hf n fl d loc cps trivial (by omega)
+    ax n (call .name_value) ⟨v.render ++ X, fl, d, loc, cps, true, cur, ps⟩ = some ⟨X, true, d, loc, cps, true, .Value :: cur, ps⟩ :=
+  name_ok v X hf n fl d loc cps cur ps trivial (by omega)
 
 theorem nameval_head_eq (v : NameVal) (Z : List TokenKind) : (v.render ++ Z).headD .Eof = v.l.firstTok := by
   simp only [NameVal.render, List.append_assoc]
